@@ -1294,6 +1294,15 @@ class Optimizer(object):
             # For safety in case optimizers of the acq_func do not handle this
             self._next_x = self.space.deactivate_inactive_dimensions(self._next_x)
 
+            # The optimizers of the acq_func are not restricted to the filtered candidates, fall
+            # back on the best candidate when they return an already sampled point
+            if (
+                self.filter_duplicated
+                and not do_only_sampling
+                and self._next_x in self.sampled
+            ):
+                self._next_x = Xsample[np.argmin(values)]
+
             self._counter_fit += 1
 
         # Pack results
